@@ -141,6 +141,16 @@ def run(eng, ctx, reader_side=True):
         if info_.get("comp"):
             continue
         again = [(k_, st_) for k_, st_ in iteration_ends(info_) if k_ in ("continue", "fall-through") and any(c[0] == "call" and is_self_call(c, rv.name) and not pol for c, pol in st_.guards)]
+        # ... which requires the receiver's result to be looked at: an iteration that goes round again has seen it report success
+        rcalls = [e_ for e_ in sr.effects if e_.kind == "call" and is_self_call(e_.term, rv.name) and e_.loops and e_.loops[0] == lid_]
+        for k_, st_ in iteration_ends(info_):
+            if k_ not in ("continue", "fall-through"):
+                continue
+            for e_ in rcalls:
+                if e_.seq < getattr(st_, "seq", 1 << 30) and all(l_ in st_.guards or (l_[0], not l_[1]) not in st_.guards for l_ in e_.guards):
+                    tested = any(c == e_.term for c, pol in st_.guards) or any(any(c == e_.term for c, pol in cj) for cj in (st_.dnf or ()))
+                    ctx.check(tested, "C11.D3", rd.qualname, f"result of {norm(e_.node)} decides whether the refill loop goes on", expected="the loop continues only when the receiver reported success",
+                              found="the receiver's result is not tested on a path that continues the loop", **eng.loc(rd, e_.node))
         ctx.check(not again, "C11.D3", rd.qualname, "failed receive ends the refill loop", expected="return / break when the receiver reports failure", found=f"{len(again)} path(s) continue the loop after a failed receive" if again else "no such path",
                   **eng.loc(rd, info_.get("node", rd.node)))
     rets = [e for e in sr.effects if e.kind == "return"]
@@ -177,7 +187,15 @@ def run(eng, ctx, reader_side=True):
                   found="; ".join(f"{norm(s.node)} ≙ {show(s.term)[:50]}" for s in stores) or "no truncation", **loc)
         ctx.check(k == numP, "C11.D2", rd.qualname, "count returned", expected=f"the requested count `{rd.params[1]}`", found=show(k)[:40], **loc)
         # D3: guard = loop exit
-        exit_guard = any(c[0] == "cmp" and ((c[1] == "<" and not pol) or (c[1] == ">=" and pol)) and c[3] == k and c[2][0] == "call" and c[2][2] == ("builtin", "len") and _field_of(c[2][3][0]) == buf for c, pol in e.guards)
+        def same_buffer(x):
+            # the buffer whose length was tested is the buffer that is sliced: the same term, or the value at the head of the refill loop's last
+            # iteration against the value the loop leaves (a length taken before the loop says nothing about the buffer after it)
+            return x == B or (x[0] == "fieldv" and B[0] == "fieldv" and x[1] == B[1] and x[2][0] == "in" and B[2][0] == "out" and x[2][1:] == B[2][1:]) \
+                or (x[0] == "loop" and B[0] == "loopout" and x[1:] == B[1:]) \
+                or (x[0] == "fieldv" and B[0] == "fieldv" and x[1] == B[1] and x[2][0] == "in" and B[2][0] == "havoc")  # the loop sits in an inlined helper: the field as the helper leaves it
+
+        exit_guard = any(c[0] == "cmp" and ((c[1] == "<" and not pol) or (c[1] == ">=" and pol)) and c[3] == k and c[2][0] == "call" and c[2][2] == ("builtin", "len") and _field_of(c[2][3][0]) == buf
+                         and same_buffer(c[2][3][0]) for c, pol in e.guards)
         ctx.check(exit_guard and not e.loops, "C11.D3", rd.qualname, "data return after the refill loop", expected=f"reached only when len(self.{buf}) >= {rd.params[1]}", found=guard_text(e.guards)[:100] or "unconditional", **loc)
     ctx.check(data_rets == 1, "C11.D2", rd.qualname, "one data return", expected="1", found=str(data_rets), **eng.loc(rd, rd.node))
     # refill loop: calls the receiver, exits with b'' on failure
